@@ -61,7 +61,7 @@ def gen_graph(src):
         else:
             nodes.append({"name": name, "kind": "prop", "deps": deps, "cache": src.chance(3, 4), "overridable": src.chance(1, 2),
                           "weights": [1 + src.choice(3) for _ in range(len(avail) if deps == "*" else len(deps))]})
-    return {"bases": bases, "nodes": nodes, "subclass": src.pick([False, False, True, "parent_holds_all"]), "post_init_read": [m["name"] for m in nodes if m["kind"] == "prop" and src.chance(1, 4)],
+    return {"bases": bases, "nodes": nodes, "subclass": src.pick([False, False, True, "parent_holds_all", "plain_sub", "override_prop"]), "post_init_read": [m["name"] for m in nodes if m["kind"] == "prop" and src.chance(1, 4)],
             "post_init_write": src.pick([None, None, "x", "y"]),  # a dependency is (also) written inside __post_init__, after the reads
             "eager": src.chance(1, 2)}
 
@@ -156,6 +156,28 @@ def build(g, counters):
             ns["__post_init__"] = __post_init__
         P = spec_class(bootstrap=g["eager"])(type("P", (), ns))
         M = spec_class(bootstrap=g["eager"])(type("M", (P,), {"__module__": "vf.generated", "__annotations__": {"extra": int}, "extra": 0}))
+    elif g["subclass"] in ("plain_sub", "override_prop") and all(set(m["deps"]) <= set(g["bases"]) for m in g["nodes"] if m["kind"] == "attr"):
+        # the parent declares the bases and the invalidated attributes; the derived properties come from
+        #  - "plain_sub": an UNDECORATED subclass (which shares the parent's metadata), or
+        #  - "override_prop": a spec subclass that overrides managed properties the parent declared without any dependencies
+        pns = dict(base_ns, __module__="vf.generated")
+        pns["__annotations__"] = dict(base_ns["__annotations__"])
+        sub_ns = {"__module__": "vf.generated"}
+        for node in g["nodes"]:
+            if node["kind"] == "attr":
+                pns["__annotations__"][node["name"]] = int
+                pns[node["name"]] = derived_ns[node["name"]]
+            else:
+                sub_ns[node["name"]] = derived_ns[node["name"]]
+                if g["subclass"] == "override_prop":
+                    pns["__annotations__"][node["name"]] = int
+                    pns[node["name"]] = spec_property(getter(node), cache=node["cache"], overridable=node["overridable"])
+        if reads or write:
+            sub_ns["__post_init__"] = __post_init__
+        P = spec_class(bootstrap=g["eager"])(type("P", (), pns))
+        M = type("M", (P,), sub_ns)
+        if g["subclass"] == "override_prop":
+            M = spec_class(bootstrap=g["eager"])(M)
     elif g["subclass"]:
         P = spec_class(bootstrap=g["eager"])(type("P", (), dict(base_ns, __module__="vf.generated")))
         ns = dict(derived_ns, __module__="vf.generated")
@@ -308,6 +330,8 @@ def run_case(ctx, case):
                             return
                         continue
                     if name not in model.slot:
+                        if managed_props(case["graph"]):
+                            continue  # a managed property is an attribute with a default: deleting "nothing" resets it, no error
                         ctx.fail("del_derived|accepted", case, f"step {i}: nothing to delete for {name} but no AttributeError")
                         return
                     del model.slot[name]
@@ -339,6 +363,11 @@ def run_case(ctx, case):
     ctx.case(case, nontrivial)
 
 
+def managed_props(g):
+    """override_prop shape (when it applies): the properties are annotated on the parent, hence managed attributes."""
+    return g["subclass"] == "override_prop" and all(set(m["deps"]) <= set(g["bases"]) for m in g["nodes"] if m["kind"] == "attr")
+
+
 def apply_mutation(ctx, case, i, obj, model, op):
     """returns (obj, model, ok, changed_base_attrs); ok None = violation reported."""
     kind, b = op[0], op[1]
@@ -356,6 +385,10 @@ def apply_mutation(ctx, case, i, obj, model, op):
         for n, node in m2.nodes.items():
             if node["kind"] == "attr":
                 m2.zval[n] = node["default"]
+                changed.append(n)
+            elif managed_props(case["graph"]):
+                # managed (annotated) properties are attributes: reset() restores their default, i.e. drops cache / override
+                m2.slot.pop(n, None)
                 changed.append(n)
         m2.slot_backup = None
         if b == "copy":
